@@ -92,7 +92,7 @@ def enc_ten(a):
     r = np.rint(a)
     if not np.array_equal(r, a):
         # data that passed through the 1/sqrt2 of q2c/c2q has been rescaled by sqrt2^degree by the harness: integer up to rounding
-        if a.size and np.abs(r - a).max() > APPROX_TOL:
+        if a.size and (APPROX_TOL == 0.0 or np.any(np.abs(r - a) > APPROX_TOL + 1e-11 * np.abs(a))):
             raise ValueError('non-integer value in exact correspondence data (max dev %g)' % np.abs(r - a).max())
     if np.abs(r).max(initial=0) >= 2**52:
         raise ValueError('magnitude too large for exact float64')
@@ -173,3 +173,61 @@ def model_output(tag, module, runner, case, timeout=600):
     if rc != 0 or not m:
         return None
     return [int(t.strip().replace('%Z', '').replace('(', '').replace(')', '')) for t in m.group(1).split(';') if t.strip()]
+
+
+# ---------------------------------------------------------------- float cases (scattering layers)
+def flit(v):
+    v = float(v)
+    if v != v or v in (float('inf'), float('-inf')):
+        raise ValueError('non-finite float in case data')
+    h = v.hex()
+    return '(%s)' % h if v < 0 or h.startswith('-') else h
+
+def flist(l):
+    return '[' + ';'.join(flit(v) for v in l) + ']'
+
+class FCase:
+    __slots__ = ('entry', 'ip', 'bias', 'filts', 'ins', 'exp', 'tol', 'meta')
+    def __init__(self, entry, ip, bias, filts, ins, exp, tol, meta):
+        self.entry, self.ip, self.bias, self.filts, self.ins, self.exp, self.tol, self.meta = entry, ip, bias, filts, ins, exp, tol, meta
+    def coq(self):
+        ins = '[' + ';'.join('(%s%%Z, %s)' % (zlist(list(np.asarray(a).shape)), flist(np.asarray(a, dtype=np.float64).ravel())) for a in self.ins) + ']'
+        fl = '[' + ';'.join(flist(f) for f in self.filts) + ']'
+        return 'mkF %d%%Z %s%%Z %s %s %s %s %s' % (self.entry, zlist(self.ip), flit(self.bias), fl, ins, flist(np.asarray(self.exp, dtype=np.float64).ravel()), flit(self.tol))
+
+def run_fcases(tag, cases, chunk_bytes=400000, timeout=1800):
+    d = os.path.join(OUT, 'cases', tag)
+    sh(['rm', '-rf', d]); os.makedirs(d, exist_ok=True)
+    lits = [c.coq() for c in cases]
+    files, cur, sz, start = [], [], 0, 0
+    for i, s in enumerate(lits):
+        if cur and sz + len(s) > chunk_bytes:
+            files.append((start, cur)); cur, sz, start = [], 0, i
+        cur.append(s); sz += len(s)
+    if cur: files.append((start, cur))
+    paths = []
+    for k, (st, ls) in enumerate(files):
+        p = os.path.join(d, 'fcases_%s_%d.v' % (re.sub(r'\W', '_', tag), k))
+        with open(p, 'w') as f:
+            f.write('From Coq Require Import PrimFloat.\nFrom PW Require Import Base.Ops Base.Tensor Run.Case Run.RunScat.\nOpen Scope float_scope.\n')
+            f.write('Definition cases : list fcase := [\n' + ';\n'.join(ls) + '\n].\n')
+            f.write('Eval vm_compute in (fbad cases).\n')
+        paths.append((st, p))
+    from concurrent.futures import ThreadPoolExecutor
+    failing, errors = [], []
+    def one(sp):
+        st, p = sp
+        rc, out = coqc_file(p, timeout)
+        return st, p, rc, out
+    with ThreadPoolExecutor(max_workers=NPROC) as ex:
+        for st, p, rc, out in ex.map(one, paths):
+            if rc != 0:
+                errors.append((p, out[-2000:])); continue
+            if re.search(r'=\s*nil\s*:\s*list Z', out): continue
+            m = re.search(r'=\s*\[(.*?)\]\s*:\s*list Z', out, re.S)
+            if not m:
+                errors.append((p, 'unparsable coqc output: ' + out[-500:])); continue
+            for tok in m.group(1).split(';'):
+                if tok.strip():
+                    failing.append(st + int(tok.strip().replace('%Z', '')))
+    return sorted(failing), errors, len(paths)
